@@ -7,13 +7,18 @@
    PROVED HERE: (a) the object layer for every value tree of any depth over the
    token sequence of v (C01_object_layer, C01_stream_toplevel, C01_pdf_indirect_object,
    C01_ref_any_generation); (b) independence of BUFSIZ and offset for every byte
-   string (C01_bufsize_offset_independent, from C14).  The passage from byte
-   spellings to tokens is proved per scalar kind in Props/C01Tokens.v when present;
-   the composition for whole composite spellings is covered by correspondence only --
-   hence the suffix _partial on the end-to-end claim. *)
+   string (C01_bufsize_offset_independent, from C14).  (c) the byte layer for literal
+   strings in full (the C01_literal_string theorems): every sequence of admissible spellings of the bytes (raw, named escape, 1-3
+   digit octal escape, line continuation with LF / CR / CRLF, ignored backslash), under the two side conditions ISO
+   32000-1 7.3.4.2 itself imposes on a writer (a short octal escape is not followed by a raw digit, backslash-CR not by
+   a raw LF), is read by the real chunked tokenizer, for every BUFSIZ, as exactly one string token with exactly those
+   bytes; and every byte string has such a spelling; likewise for hexadecimal strings (any case, white
+   space anywhere, even digit count), names (raw regular bytes and #xx escapes) and integers (sign, leading zeros).
+   Real numbers (the value is Python's float()) and the composition of token spellings into the byte spelling of a
+   whole composite value are covered by correspondence only. *)
 From Coq Require Import ZArith List Bool String.
 From PdfV Require Import Base.CV Gen.LexClasses Model.Lexer Model.StackParser Model.StackRun
-  Proofs.LexerProofs Proofs.LexerInv Proofs.StackProofs.
+  Proofs.LexerProofs Proofs.LexerInv Proofs.StackProofs Proofs.SpellingProofs Proofs.SpellingProofs2.
 Import ListNotations.
 Open Scope Z_scope.
 Open Scope string_scope.
@@ -46,6 +51,71 @@ Proof.
   rewrite lex_offset, map_map. apply map_ext. intros [p t]. reflexivity.
 Qed.
 
+(* literal strings, byte level: ( spelling ) is read, for every BUFSIZ and offset, as the one token carrying the bytes *)
+Theorem C01_literal_string_any_spelling : forall (b : nat) (pos : Z) (ps : list piece), (0 < b)%nat -> seq_ok ANone ps ->
+  tokenize b pos (40 :: flat_map render ps ++ [41]) = Some [(pos, TStr (flat_map pvalue ps))].
+Proof. intros b pos ps Hb Hok. rewrite tokenize_lex by exact Hb. f_equal. exact (literal_string_lex pos ps Hok). Qed.
+
+(* ... and in context: after anything that leaves the tokenizer between tokens, it adds exactly that token *)
+Theorem C01_literal_string_in_context : forall st ps, lmode st = MMain -> seq_ok ANone ps ->
+  let fin := run st (40 :: flat_map render ps ++ [41]) in
+  lmode fin = MMain /\ toks fin = (apos st, TStr (flat_map pvalue ps)) :: toks st.
+Proof. exact literal_string_token. Qed.
+
+Theorem C01_every_string_has_a_spelling : forall v, Forall (fun b => 0 <= b < 256) v ->
+  exists ps, seq_ok ANone ps /\ flat_map pvalue ps = v.
+Proof. exact every_string_has_a_spelling. Qed.
+
+Example C01_literal_string_nonvacuous :
+  let ps := [PRaw 65; PEsc 110 10; POct [48; 49]; PRaw 57; POct [49; 50; 51]; PRaw 52; PCont [13]; PRaw 66; PCont [13; 10];
+             PIgn 113; PEsc 40 40; POct [55]; PCont [10]] in
+  seq_ok ANone ps /\ flat_map pvalue ps = [65; 10; 1; 57; 83; 52; 66; 113; 40; 7].
+Proof. exact spelling_example. Qed.
+
+(* hexadecimal strings: < digits in any case with white space anywhere > *)
+Theorem C01_hex_string_any_spelling : forall (b : nat) (pos : Z) (ps : list hpiece), (0 < b)%nat -> Forall hwf ps ->
+  tokenize b pos (60 :: flat_map hrender ps ++ [62]) = Some [(pos, TStr (flat_map hvalue ps))].
+Proof. intros b pos ps Hb Hok. rewrite tokenize_lex by exact Hb. f_equal. exact (hex_string_lex pos ps Hok). Qed.
+Theorem C01_hex_string_in_context : forall st ps, lmode st = MMain -> Forall hwf ps ->
+  let fin := run st (60 :: flat_map hrender ps ++ [62]) in
+  lmode fin = MWClose /\ toks fin = (apos st, TStr (flat_map hvalue ps)) :: toks st.
+Proof. exact hex_string_token. Qed.
+Theorem C01_every_string_has_a_hex_spelling : forall v, Forall (fun b => 0 <= b < 256) v ->
+  exists ps, Forall hwf ps /\ flat_map hvalue ps = v.
+Proof. exact every_string_has_a_hex_spelling. Qed.
+
+(* names: / raw regular bytes and #xx escapes, up to any delimiter *)
+Theorem C01_name_any_spelling : forall (b : nat) (pos : Z) (ps : list npiece), (0 < b)%nat -> Forall nwf ps ->
+  tokenize b pos (47 :: flat_map nrender ps) = Some [(pos, TLit (flat_map nvalue ps))].
+Proof. intros b pos ps Hb Hok. rewrite tokenize_lex by exact Hb. f_equal. exact (name_lex pos ps Hok). Qed.
+Theorem C01_name_in_context : forall st ps d, lmode st = MMain -> Forall nwf ps -> ndelim d ->
+  exists st', lmode st' = MMain /\ toks st' = (apos st, TLit (flat_map nvalue ps)) :: toks st /\
+              run st (47 :: flat_map nrender ps ++ [d]) = step st' d.
+Proof. exact name_token. Qed.
+Theorem C01_every_name_has_a_spelling : forall v, Forall (fun b => 0 <= b < 256) v ->
+  exists ps, Forall nwf ps /\ flat_map nvalue ps = v.
+Proof. exact every_name_has_a_spelling. Qed.
+
+(* integers: optional sign, any number of leading zeros *)
+Theorem C01_integer_any_spelling : forall (b : nat) (pos : Z) s ds, (0 < b)%nat -> ds <> [] -> forallb isdigit ds = true ->
+  tokenize b pos (sign_bytes s ++ ds) = Some [(pos, TInt (sign_apply s (digits_val ds)))].
+Proof. intros b pos s ds Hb Hne Hd. rewrite tokenize_lex by exact Hb. f_equal. exact (integer_lex pos s ds Hne Hd). Qed.
+Theorem C01_integer_in_context : forall st s ds d, lmode st = MMain -> ds <> [] -> forallb isdigit ds = true -> idelim d ->
+  exists st', lmode st' = MMain /\ toks st' = (apos st, TInt (sign_apply s (digits_val ds))) :: toks st /\
+              run st (sign_bytes s ++ ds ++ [d]) = step st' d.
+Proof. exact integer_token. Qed.
+Theorem C01_every_integer_has_a_spelling : forall z,
+  exists s ds, ds <> [] /\ forallb isdigit ds = true /\ sign_apply s (digits_val ds) = z.
+Proof. exact every_integer_has_a_spelling. Qed.
+Theorem C01_leading_zeros : forall ds, digits_val (48 :: ds) = digits_val ds.
+Proof. exact digits_val_zero. Qed.
+
+Example C01_scalar_spellings_nonvacuous :
+  tokenize 3 7 (hx "3c342061200a34413e") = Some [(7, TStr [74; 74])] /\
+  tokenize 2 0 (hx "2f4123343223323042") = Some [(0, TLit [65; 66; 32; 66])] /\
+  tokenize 1 5 (hx "2d30303137") = Some [(5, TInt (-17))].
+Proof. vm_compute. auto. Qed.
+
 (* non-vacuity: a nested value with escapes, spelled with minimal delimiters and comments *)
 Example C01_nonvacuous :
   (* [/A#42(<\(()>\101\<LF>)<</K[1 -2.5]/N null/R 3 0 R>>%c<LF><4 1<LF>4a>true] *)
@@ -59,3 +129,18 @@ Print Assumptions C01_pdf_indirect_object.
 Print Assumptions C01_ref_any_generation.
 Print Assumptions C01_bufsize_offset_independent.
 Print Assumptions C01_nonvacuous.
+Print Assumptions C01_literal_string_any_spelling.
+Print Assumptions C01_literal_string_in_context.
+Print Assumptions C01_every_string_has_a_spelling.
+Print Assumptions C01_literal_string_nonvacuous.
+Print Assumptions C01_hex_string_any_spelling.
+Print Assumptions C01_hex_string_in_context.
+Print Assumptions C01_every_string_has_a_hex_spelling.
+Print Assumptions C01_name_any_spelling.
+Print Assumptions C01_name_in_context.
+Print Assumptions C01_every_name_has_a_spelling.
+Print Assumptions C01_integer_any_spelling.
+Print Assumptions C01_integer_in_context.
+Print Assumptions C01_every_integer_has_a_spelling.
+Print Assumptions C01_leading_zeros.
+Print Assumptions C01_scalar_spellings_nonvacuous.
